@@ -475,7 +475,7 @@ def _positivity(t, depth=0):
     return "U", any(s[0] in ("arg", "field") for s in subterms(t))
 
 
-def eq_reflexive(ck, prog):
+def eq_reflexive(ck, prog, files=None, floor=5):
     """`restored == original` needs eq(m, m) to be true for every finite model. In the hand-written eq functions every test of
     the form |a - b| < bound (strict) is satisfied on the diagonal only if the bound is strictly positive for every input:
     a bound that reads the compared values and is merely non-negative (eps * max(|a|, |b|)) vanishes for a == b == 0."""
@@ -484,7 +484,8 @@ def eq_reflexive(ck, prog):
     # the eq functions, their closures, and the local helpers they call (two levels)
     scope = {}
     for b in prog.bodies.values():
-        if b.impl_trait == "std::cmp::PartialEq" and b.name == "eq" and b.loc and b.loc[0].startswith("src/") and not b.loc[0].startswith("src/error"):
+        if b.impl_trait == "std::cmp::PartialEq" and b.name == "eq" and b.loc and b.loc[0].startswith("src/") and not b.loc[0].startswith("src/error") \
+                and (files is None or b.loc[0] in files):
             scope[b.path] = b
     frontier = list(scope.values())
     for _ in range(2):
@@ -548,7 +549,8 @@ def eq_reflexive(ck, prog):
                                        f"(it is 0 when they are 0), so a model containing such a value is not equal to itself or to its restored copy")
                 else:
                     ck.ok(rule, inst, b.path, c.where, f"`|a - b| {rel} {render(R)[:50]}`: bound {kind}{', data-dependent' if data else ''}")
-    ck.floor(rule, 5)
+    if floor:
+        ck.floor(rule, floor)
 
 
 def run(ck, prog):
